@@ -82,8 +82,12 @@ func (fr *frame) execInstr(in ssa.Instruction, st *State, reach string, b *ssa.B
 		ft := stt.Field(x.Field).Type()
 		nv := &Val{lv: fr.ptrLV(pv, pt).extendField(x.Field, cont, ft)}
 		if n, ok := cont.(*types.Named); ok && n.Obj().Pkg() != nil && !fr.pure {
-			if u.eng.mapInv["F:"+n.Obj().Pkg().Name()+"."+n.Obj().Name()+"."+stt.Field(x.Field).Name()] == "nonnil" {
+			mi := u.eng.mapInv["F:"+n.Obj().Pkg().Name()+"."+n.Obj().Name()+"."+stt.Field(x.Field).Name()]
+			if strings.Contains(mi, "nonnil") {
 				nv.mapNonNil = true
+			}
+			if strings.Contains(mi, "distinct") {
+				nv.mapDistinct = true
 			}
 			if lockField, ok := u.eng.guards[n.Obj().Pkg().Name()+"."+n.Obj().Name()+"."+stt.Field(x.Field).Name()]; ok {
 				for li := 0; li < stt.NumFields(); li++ {
@@ -247,6 +251,18 @@ func (fr *frame) execInstr(in ssa.Instruction, st *State, reach string, b *ssa.B
 		}
 		hp := u.heapGet(st, pn, ps)
 		hv := u.heapGet(st, vn, vs)
+		if _, isPtr := mt.Elem().Underlying().(*types.Pointer); isPtr && mv.mapDistinct {
+			// registry invariant "distinct": no two keys share one value object. Every pointer already stored is older than
+			// the allocation counter at the time the map heap was last unknown (assumed there, see mapValueWF), so a value
+			// allocated since then is new to the map.
+			fr.flushMapWF(st)
+			ks := u.sorts.sortOf(mt.Key())
+			q := u.fresh("k")
+			u.oblige(fr.obName("mapinv-distinct", fr.describe(x.Map, 0)), "mapinv", nil, reach,
+				fmt.Sprintf("(forall ((%s %s)) (=> (and (select (select %s %s) %s) (not (= %s %s))) (not (= (select (select %s %s) %s) %s))))",
+					q, ks, hp, mv.t, q, q, k, hv, mv.t, q, v), fr.pos(x.Pos()),
+				"registry invariant: each key has its own value object (no entry aliases another)")
+		}
 		u.heapSet(st, pn, ps, fmt.Sprintf("(store %s %s (store (select %s %s) %s true))", hp, mv.t, hp, mv.t, k))
 		u.heapSet(st, vn, vs, fmt.Sprintf("(store %s %s (store (select %s %s) %s %s))", hv, mv.t, hv, mv.t, k, v))
 	case *ssa.Range:
@@ -317,6 +333,22 @@ func indexOfLocal(fn *ssa.Function, a *ssa.Alloc) int {
 	return -1
 }
 
+// flushMapWF states, for every map-value heap of a "distinct" registry that became unknown since the last flush, that the
+// pointers it holds are older than the current allocation counter (true of any Go heap: a stored pointer exists).
+func (fr *frame) flushMapWF(st *State) {
+	u := fr.u
+	for _, h := range u.pendingMapWF {
+		m, k := u.fresh("m"), u.fresh("k")
+		ks := h[1]
+		if st.alloc == "" {
+			continue
+		}
+		u.assume("true", fmt.Sprintf("(forall ((%s Int) (%s %s)) (! (< (select (select %s %s) %s) %s) :pattern ((select (select %s %s) %s))))",
+			m, k, ks, h[0], m, k, st.alloc, h[0], m, k))
+	}
+	u.pendingMapWF = nil
+}
+
 func (fr *frame) mapHeaps(mt *types.Map) (pn, ps, vn, vs string) {
 	s := fr.u.sorts
 	ks, es := s.sortOf(mt.Key()), s.sortOf(mt.Elem())
@@ -376,6 +408,7 @@ func (fr *frame) execUnOp(x *ssa.UnOp, st *State, reach string) {
 			nv.guard = v.guard
 		}
 		nv.mapNonNil = v.mapNonNil
+		nv.mapDistinct = v.mapDistinct
 		fr.vals[x] = nv
 	case token.NOT:
 		fr.vals[x] = &Val{t: not(v.t)}
@@ -1106,6 +1139,7 @@ func (fr *frame) enterLoop(li *loopInfo, st *State, reach string) *State {
 	na := u.declare("alloc@loop", "Int")
 	u.assume(reach, fmt.Sprintf("(>= %s %s)", na, st.alloc))
 	ns.alloc = na
+	fr.flushMapWF(ns)
 	for _, in := range h.Instrs {
 		p, ok := in.(*ssa.Phi)
 		if !ok {
@@ -1192,6 +1226,9 @@ func (fr *frame) havocNames(mods ModSet, st *State, ns *State, why, reach string
 		old := u.heapGet(st, real, srt)
 		nv := u.declare(real+"@"+why, srt)
 		ns.h[real] = nv
+		if ks, ok := u.distinctHeaps[real]; ok {
+			u.pendingMapWF = append(u.pendingMapWF, [2]string{nv, ks})
+		}
 		if fresh {
 			r := u.fresh("r")
 			u.assume("true", fmt.Sprintf("(forall ((%s Int)) (! (=> (< %s %s) (= (select %s %s) (select %s %s))) :pattern ((select %s %s))))", r, r, st.alloc, nv, r, old, r, nv, r))
